@@ -172,6 +172,9 @@ def check(run):
     run.check(bool(rets) and all(passes_through(r['e']) for r in rets), 'R4', 'mtu-pass-through', gp.norm, gp.loc(),
               'get_path_mtu does not return configuration::path_mtu(source, dest) unchanged (returns %s): a floor or ceiling on the MTU makes TCP segments and don\'t-fragment datagrams exceed (or undershoot) the configured path MTU for some configurations'
               % ', '.join(q.render(gp, r['e'])[:60] for r in rets), 'returns the configured value itself')
+    run.clause("the accepted side looks the path MTU up for (own address, CONNECTOR's address): channel orientation (shared with C09)")
+    import p09 as _p09
+    _p09.channel_orientation_rules(run)
     run.floor('R4', 5)
 
 
